@@ -40,7 +40,8 @@ def main():
                                     "no:cacheprovider"], cwd=scratch, capture_output=True, text=True)
                 tests = "suite passes" if r.returncode == 0 else "SUITE FAILS"
             env = dict(os.environ, HGXVERIF_REPO=scratch, PYTHONHASHSEED="0",
-                       VERIF_SEED=os.environ.get("VERIF_SEED", "1"))
+                       VERIF_SEED=os.environ.get("VERIF_SEED", "1"),
+                       HGXVERIF_EVIDENCE_DIR="/var/tmp/hgxverif_scratch_evidence")
             t0 = time.time()
             cmd = ["/venv/bin/python", "-m", "hgxverif.run", m["property"], "--tier", "quick"]
             if m.get("clause"):
